@@ -437,7 +437,7 @@ def strategy():
                         bumps.append([n_nodes + 2 * e, min(w - 2, x + 4 * e + 2), y, 0.9, 3.0])
                 else:
                     for ch in range(channels if model != "centroids" else 1):
-                        if ch > 0 and draw(st.integers(0, 4)) == 0:
+                        if ch > 0 and draw(st.integers(0, 2)) == 0:
                             continue  # this node is not visible for this animal (channel may stay below threshold)
                         bumps.append([ch, x + draw(st.integers(-2, 2)), y + draw(st.integers(-2, 2)), amp, draw(st.sampled_from([1.0, 1.5]))])
             frames.append({"bumps": bumps, "noise": draw(st.sampled_from([0.0, 0.01, 0.05])), "noise_seed": draw(st.integers(0, 10**6))})
